@@ -102,6 +102,9 @@ def attr_trees(tier):
     for t in T_VALUES:
         if t is not None:
             out.append(('type-attr', (('e', 'r', (), (('e', 'a', (('type', t),), ()), ('e', 'b', (('type', t.upper() if t else t), ('t', t)), ()))),)))
+    # attribute and tag names stored in another case than the selector's (API-built trees and html5lib's adjusted foreign attributes)
+    for t in ('v', 'V', 'v w', ''):
+        out.append(('stored-case', (('e', 'r', (), (('e', 'a', (('T', t),), ()), ('e', 'A', (('t', t), ('ID', 'i'), ('Class', 'c')), ()), ('e', 'b', (('tT', t),), ()))),)))
     pair_values = T_VALUES if tier != 'quick' else (None, '', 'v', 'V', 'v w', 'w-v', 'x\nv', "'v'")
     for t1, t2 in itertools.product(pair_values, repeat=2):
         out.append(('nested', (('e', 'a', attrs(t1, None, None), (('e', 'b', attrs(t2, 'i', 'c'), ()),)),)))
@@ -240,7 +243,7 @@ def attr_selectors(tier):
 LAYERS = {
     'S': (structure_trees, structure_selectors, ('api-html', 'api-xml')),
     'F': (functional_trees, functional_selectors, ('api-html', 'api-xml')),
-    'A': (attr_trees, attr_selectors, ('api-html', 'api-xml', 'api-xhtml')),
+    'A': (attr_trees, attr_selectors, ('api-html', 'api-xml', 'api-xhtml', 'api-html5')),
     'PS': (lambda tier: [t for t in structure_trees('quick') if '@' not in t[0]][::1 if tier != 'quick' else 2],
            lambda tier: structure_selectors('quick')[::7 if tier == 'quick' else 2],
            ('html.parser', 'lxml', 'html5lib', 'xml')),
@@ -339,7 +342,7 @@ def record_failure(res, sv, layer, forest, kind, lst, tindex, r):
     rr = fails(f2, l2) or r
     sig = {'kind': rr['status'], 'direction': rr.get('direction', rr.get('exc', '')),
            'atoms': '+'.join(sorted(_sel.atoms_of(l2))), 'tree': '+'.join(sorted(tree_features(f2))),
-           'doc': 'xml' if kind in ('api-xml', 'xml') else ('xhtml' if kind == 'api-xhtml' else 'html')}
+           'doc': 'xml' if kind in ('api-xml', 'xml') else ('xhtml' if kind == 'api-xhtml' else 'html-ns' if kind == 'api-html5' else 'html')}
     res.fail({'layer': layer, 'forest': f2, 'kind': kind, 'selector': l2, 'target': tindex, 'text': S.render(l2)},
              sig, rr.get('detail', ''))
 
